@@ -193,7 +193,9 @@ class C19(Check):
                         g = {"GPass": "GReject", "GReject": "GPass", "GRaise": "GPass"}[g]   # the answer was different then
                     if g == "GRaise":
                         raise _gate_exc(case.get("exc", 0) + i)
-                    return g == "GPass"
+                    # "returned true" is truthiness: gates may answer with any truthy / falsy value
+                    k = case.get("exc", 0) + i
+                    return [True, 1, "yes", [0], 2.5][k % 5] if g == "GPass" else [False, None, 0, "", [], 0.0][k % 6]
 
                 def processor(x):
                     log.append([i, 1, x])
@@ -388,6 +390,16 @@ class C19(Check):
                 checks = [e for e in log if e[0] == i and e[1] == 0]
                 if not checks or ev_gate(stages[i]["c"], checks[-1][2]) != "GPass":
                     return Violation("C19/gate-fail-open", f"stage {i} is reported COMPLETED although its checkpoint did not return true")
+        # a stage is COMPLETED only if its processor returned for the signal it was given, or its handler recovered
+        for (i, st, _f) in trace["sres"]:
+            if st == 0:
+                procs = [e for e in log if e[0] == i and e[1] == 1]
+                if not procs:
+                    return Violation("C19/completed-without-processing", f"stage {i} is reported COMPLETED but its processor never ran")
+                if ev_proc(stages[i]["p"], procs[-1][2])[0] == "raise" and (stages[i]["h"] is None or stages[i]["h"][0] == "raise"):
+                    return Violation("C19/completed-without-processing",
+                                     f"stage {i} is reported COMPLETED although its processor raised on {procs[-1][2]} and "
+                                     f"{'it has no error handler' if stages[i]['h'] is None else 'its error handler raised too'}")
         # halted pipelines run nothing further
         if case["halt"]:
             for (i, st, _f) in trace["sres"]:
@@ -406,6 +418,8 @@ class C19(Check):
             x = case["x"]
             for s in stages:
                 r = ev_proc(s["p"], x)
+                if r[0] != "ok" and (s["h"] is None or s["h"][0] == "raise"):
+                    return Violation("C19/success-not-all-completed", "success although a stage's processor raised and nothing recovered it")
                 x = r[1] if r[0] == "ok" else s["h"][1]
             if trace["out"] != x:
                 return Violation("C19/output-not-composition", f"final_output {trace['out']} != composition {x}")
